@@ -18,8 +18,8 @@ import vlib
 from checks import storegen as sg
 
 PROP = "C05"
-THEOREMS = ["mem_insert_scan", "mem_delete_scan", "mem_refines_spec", "disk_refines_spec_partial",
-            "engines_equiv_partial", "not_null_storage_witness", "engines_equiv_full_unsound"]
+THEOREMS = ["mem_insert_scan", "mem_delete_scan", "mem_refines_spec", "disk_refines_spec",
+            "engines_equiv", "not_null_storage_regression"]
 WEIGHTS = {"insert": 34, "delete": 24, "compact": 10, "vacuum": 3, "reopen": 6, "create": 12, "drop": 8,
            "view": 2, "index": 2}
 NAMES = ["t0", "t1", "t2"]
@@ -258,7 +258,7 @@ def run(ck):
             h["line"] = head + ") " + qsexp + " (create " + tail
             hists.append(h)
             continue
-        g.null_in_nn = 0.04 if i % 2 else 0.0
+        g.null_in_nn = 0.04 if i % 2 else 0.0    # such INSERTs must be rejected by both engines
         h = g.history(i, nsteps=g.r.randint(6, 20), weights=WEIGHTS, bulk=(i % 10 == 0), followup=False)
         h = inject_insert_select(g, h)
         qs = gen_queries(g, h)
@@ -350,9 +350,7 @@ def run(ck):
                 t = sql.split(" from ")[1].split()[0] if " from " in sql else None
                 facts = table_facts(i, orc, t, h["opts"]) if t in orc.tables else {}
                 qrp["table_facts"] = facts
-                if "null-in-nonnull-column" in tags:
-                    bad_here = bad_here or ("query `%s`" % sql, a[:200], b[:200])
-                elif kind == "pkord":
+                if kind == "pkord":
                     cb, rb = parse_result(b)
                     if noopt_ok and ra is not None and rb is not None and sorted(ra) == sorted(rb) and facts.get("rowsets", 0) >= 2:
                         T["tagged_bad"] += 1
@@ -412,10 +410,8 @@ def run(ck):
                 T["io_bad"] += 1
                 predicted = sg.canon_tabs(m.get("tabs", "")) == sg.canon_tabs(i.get("tabs", "")) and \
                     sg.canon_tabs(m.get("mtabs", "")) == sg.canon_tabs(i.get("mtabs", ""))
-                if "null-in-nonnull-column" in tags and predicted:
-                    ck.report("engines:null-in-nonnull-column",
-                              "%s: memory engine %s, disk engine %s (a NULL written into a NOT NULL column is read back as the type's default by the disk engine; both models reproduce their engine)" % bad_here,
-                              replay=rp)
+                if False:
+                    pass
                 else:
                     ck.report("engines:%s" % s["k"], "%s: memory engine %s, disk engine %s" % bad_here, replay=rp)
                 break
